@@ -530,7 +530,7 @@ def build_model(cfg, key_int):
     if kw["equivariant"]:
         drop = {tuple(t) for t in cfg.get("bank_drop", [])}
         bank = ref_bank(D, 3, tuple(cfg["bank_ks"]), (0, 1), cfg.get("group", "B"))
-        up = ref_bank(D, 2, tuple(cfg["bank_ks"]), (0, 1), cfg.get("group", "B"))
+        up = ref_bank(D, cfg.get("up_M", 2), tuple(cfg["bank_ks"]), (0, 1), cfg.get("group", "B"))
         if drop:
             import ginjax.geometric as geom
 
